@@ -201,6 +201,38 @@ def check_unstructured(viol):
     return n
 
 
+def check_delivery_identity(viol):
+    """what an input delivered for one time must not change when it is pulled again (C15 / C08: the located values of a delivery)"""
+    import datetime as _dt
+    n = 0
+    t0 = _dt.datetime(2000, 1, 1)
+    ga = UniformGrid((4, 3))
+    for gb in (UniformGrid((4, 3), axes_reversed=True), UniformGrid((4, 3), axes_increase=[True, False]), UniformGrid((4, 3))):
+        for masked in (False, True):
+            n += 1
+            m = np.zeros(ga.data_shape, dtype=bool)
+            m[0, 0] = masked
+            out = fm.Output("o", fm.Info(time=t0, grid=ga, units="m", mask=(m if masked else fm.Mask.NONE)))
+            inp = fm.Input("i", fm.Info(time=t0, grid=gb, units="m", mask=fm.Mask.FLEX))
+            out >> inp
+            inp.ping()
+            inp.exchange_info()
+            first = None
+            for k in range(3):
+                t = t0 + _dt.timedelta(days=k)
+                a = np.arange(6, dtype=float).reshape(ga.data_shape) + 10.0 * k
+                out.push_data(np.ma.array(a, mask=m) if masked else a, t)
+                got = inp.pull_data(t)
+                if k == 0:
+                    first = got
+                    snapshot = np.ma.getdata(got.magnitude).copy()
+            if not np.array_equal(np.ma.getdata(first.magnitude), snapshot):
+                viol.append(f"the data delivered for the first time changed when the input was pulled again (consumer layout reversed={gb.axes_reversed}, "
+                            f"increase={list(map(bool, gb.axes_increase))}, masked={masked}): the input hands out the same array object for every pull")
+                return n
+    return n
+
+
 def check_constructor_purity(viol):
     """building a grid must not change the arrays it is built from: the same call twice gives the same grid (C14: the index-to-coordinate
     mapping of a grid is a function of the constructor arguments)"""
@@ -257,6 +289,8 @@ def main():
         n += check_unstructured(viol)
     if not viol:
         n += check_constructor_purity(viol)
+    if not viol:
+        n += check_delivery_identity(viol)
     res = {"evaluations": n, "distinct_nontrivial": n, "violations": [{"case": v} for v in viol[:3]],
            "rule": "all layouts (order, axes_reversed, per-axis direction, location) of uniform and rectilinear grids over the listed dims; ordered layout pairs through a real link (every 7th pair for 3-D in the quick tier); distinct = (kind, dims, layout[, layout])",
            "bound": f"dims {dimsets}", "exhaustive": thorough}
